@@ -49,6 +49,8 @@ FRESH_BUILTINS = {'list', 'tuple', 'dict', 'set', 'range', 'sum', 'len', 'int', 
                   'hstack', 'sqrtm', 'eigh', 'flat', 'vert_comb', 'diag_comb', 'sparse_mul',
                   'sp_matmul', 'sp_lmatmul', 'sp_trans', 'index_array', 'array_to_sparse',
                   'sv_to_csr', 'event_dict', 'comb_set', 'rso_broadcast'}
+# constructing the format a `.linear` already has does not copy (scipy: copy=False)
+SAME_FORMAT_CTORS = {'csr_matrix'}
 # result is the (possibly shared) cached object of the receiver
 CACHED_CALLS = {'do_math', 'mix_support', 'rule_var'}
 # fields known to hold scipy sparse matrices (indexing / slicing them copies)
@@ -250,6 +252,11 @@ class FuncAccess(MustFlow):
             for o in base:
                 if o[0] == 'fresh':
                     out.add(('fresh',))
+                elif o[0] == 'viaop':
+                    # only the sparse coefficient matrix can be shared with the operand
+                    if expr.attr in SPARSE_FIELDS:
+                        out.add(o[1:] + (expr.attr,))
+                    out.add(('fresh',))
                 elif o[0].startswith('new:'):
                     out |= self._ctor_field(o, expr.attr, _seen)
                 else:
@@ -274,6 +281,15 @@ class FuncAccess(MustFlow):
             return self.origins(expr.value, _seen)
         if isinstance(expr, ast.Starred):
             return self.origins(expr.value, _seen)
+        if isinstance(expr, ast.BinOp) and isinstance(expr.op, (ast.Add, ast.Sub)):
+            # x + c / x - c builds a new expression object that may share x's coefficient matrix
+            # (Affine.__add__ with a constant passes self.linear on): remember the operands
+            out = {('fresh',)}
+            for side in (expr.left, expr.right):
+                for o in self.origins(side, _seen, rebound):
+                    if o[0] in ('self',) or o[0].startswith('param:'):
+                        out.add(('viaop',) + o)
+            return out
         if isinstance(expr, (ast.BinOp, ast.UnaryOp, ast.Compare, ast.BoolOp, ast.Constant,
                              ast.List, ast.Tuple, ast.Dict, ast.Set, ast.ListComp,
                              ast.SetComp, ast.DictComp, ast.GeneratorExp, ast.JoinedStr,
@@ -300,6 +316,11 @@ class FuncAccess(MustFlow):
             r = self.repo.resolve_name(self.fi.module, call.func.id)
             if isinstance(r, ClassInfo):
                 return {('new:' + r.fq, id(call))}
+            if call.func.id in SAME_FORMAT_CTORS and len(call.args) == 1 and _is_sparse_expr(call.args[0]) and \
+                    not any(k.arg == 'copy' and isinstance(k.value, ast.Constant) and k.value.value is True
+                            for k in call.keywords):
+                # csr_matrix(<csr matrix>) shares data / indices / indptr with its argument
+                return self.origins(call.args[0], _seen) | {('fresh',)}
             if call.func.id in FRESH_BUILTINS:
                 return {('fresh',)}
             return {('call:' + name,)}
@@ -362,6 +383,10 @@ class FuncAccess(MustFlow):
                 r = self.repo.resolve_name(self.fi.module, expr.func.id)
                 if isinstance(r, ClassInfo):
                     return True
+                if expr.func.id in SAME_FORMAT_CTORS and len(expr.args) == 1 and _is_sparse_expr(expr.args[0]) and \
+                        not any(k.arg == 'copy' and isinstance(k.value, ast.Constant) and k.value.value is True
+                                for k in expr.keywords):
+                    return self.is_fresh(expr.args[0], state)
                 return expr.func.id in FRESH_BUILTINS
             return False
         if isinstance(expr, ast.IfExp):
